@@ -76,6 +76,26 @@ Theorem T03_proxy_quiesces : forall sh s tr s',
 Proof. exact proxy_quiesces. Qed.
 Print Assumptions T03_proxy_quiesces.
 
+(* No deadlock on the way: from every state the proxy can reach, by steps of its own alone (at most
+   mu s of them), a state in which it has nothing left to do ... *)
+Theorem T03_can_settle : forall sh s, 0 < sh_bufsz sh ->
+  exists tr s', steps sh s tr s' /\ (forall l, In l tr -> is_env l = false) /\ quiet sh s' /\ (length tr <= mu s)%nat.
+Proof. exact can_settle. Qed.
+Print Assumptions T03_can_settle.
+
+(* ... so once both endpoints have shut down, completion is reachable: both sockets closed and, unless
+   the forced close fired, each direction delivered completely and shown end-of-stream.  (That the Go
+   scheduler does run an enabled step is outside the model.) *)
+Theorem T03_completion_reachable : forall g e k tr s, (0 <= g)%Z ->
+  steps (tables_shape g) (init e [] k None None) tr s ->
+  d_wcl (s_ct s) = true -> d_wcl (s_tc s) = true ->
+  exists tr' s', steps (tables_shape g) s tr' s' /\ (forall l, In l tr' -> is_env l = false) /\
+    (length tr' <= mu s)%nat /\ s_up s' = true /\ s_down s' = true /\
+    (s_forced s' = false ->
+       forall d, d_rcv (get d s') = early_of e k d ++ writes d (tr ++ tr') /\ d_eof (get d s') = true).
+Proof. exact (fun g e k tr s Hg => completion_reachable _ e k tr s (shape_ok_tables g Hg)). Qed.
+Print Assumptions T03_completion_reachable.
+
 (* When both endpoints have shut down and the proxy has nothing left to do, both connections are closed. *)
 Theorem T03_both_closed : forall g e k tr s, (0 <= g)%Z ->
   steps (tables_shape g) (init e [] k None None) tr s ->
@@ -141,6 +161,14 @@ Print Assumptions T03_abstract_counts.
 Theorem T03_oracle_sound : forall o, obs_prop o = true -> obs_property o.
 Proof. exact obs_prop_sound. Qed.
 Print Assumptions T03_oracle_sound.
+
+(* The model meets the oracle: every state the LTS reaches in which the proxy is at rest (and the
+   forced close has not fired) shows the endpoints exactly what the oracle demands of the real ones. *)
+Theorem T03_model_meets_oracle : forall g e k tr s, (0 <= g)%Z ->
+  steps (tables_shape g) (init e [] k None None) tr s -> quiet (tables_shape g) s -> s_forced s = false ->
+  obs_property (model_obs s e k tr).
+Proof. exact (fun g e k tr s Hg => model_meets_oracle _ e k tr s (shape_ok_tables g Hg)). Qed.
+Print Assumptions T03_model_meets_oracle.
 
 (* A case passing the correspondence check has a recorded trace that is a run of the LTS from the
    observed switch-over state; when the dialled connection carries TLS (HTTPS upstream proxy, Upgrade
